@@ -1,12 +1,1047 @@
 package main
 
-// OwnOb is an obligation of the ownership / frame / effects pass (backend "own": decided syntactically by the tool).
+import (
+	"fmt"
+	"go/ast"
+	"go/token"
+	"go/types"
+	"sort"
+	"strings"
+)
+
+// OwnOb is an obligation of the ownership / frame / effects pass (backend "own": decided syntactically by the tool,
+// by a flow-sensitive abstract interpretation of each function body; DESIGN §2.7).
 type OwnOb struct {
 	Key  string
-	Kind string
+	Kind string // own-not-borrowed own-moved-once own-write-site frame effects
 	OK   bool
 	Pos  string
 	Why  string
+	Tags []string
 }
 
-func ownPass(w *World, id string) []*OwnOb { return nil }
+// ownership class of a tree-typed value: the set of sources it may share structure with.
+//   heap    : stored documents / anything reached through a pointer or a package variable
+//   bparams : parameters the function only borrows
+//   dparams : parameters handed over by the caller (consumes / inplace / mutates) - owned here, but a result that
+//             derives from them is only as good as the caller's argument
+// A value is "borrowed" (must not be mutated, consumed or embedded) iff heap or bparams is non-empty.
+type ocls struct {
+	heap    bool
+	bparams uint64
+	dparams uint64
+}
+
+var (
+	owned    = ocls{}
+	borrowed = ocls{heap: true}
+)
+
+func (c ocls) isBorrowed() bool { return c.heap || c.bparams != 0 }
+
+func joinCls(a, b ocls) ocls {
+	return ocls{heap: a.heap || b.heap, bparams: a.bparams | b.bparams, dparams: a.dparams | b.dparams}
+}
+
+type ownState struct {
+	cls     map[*types.Var]ocls
+	shallow map[*types.Var]bool      // top level freshly allocated (maps.Clone / literal): direct key writes are fine
+	moved   map[string]token.Pos     // "var:<name>@<pos>" or "field:T.f[base]" -> where it was given away
+	freshP  map[*types.Var]bool      // pointer variables that hold an object allocated in this function (or by a `fresh` callee)
+	bottom  bool                     // no execution reaches this state yet (accumulators)
+}
+
+func newOwnState() *ownState {
+	return &ownState{cls: map[*types.Var]ocls{}, shallow: map[*types.Var]bool{}, moved: map[string]token.Pos{}, freshP: map[*types.Var]bool{}, bottom: true}
+}
+
+func (s *ownState) clone() *ownState {
+	n := &ownState{cls: map[*types.Var]ocls{}, shallow: map[*types.Var]bool{}, moved: map[string]token.Pos{}, freshP: map[*types.Var]bool{}}
+	for k, v := range s.cls {
+		n.cls[k] = v
+	}
+	for k, v := range s.shallow {
+		n.shallow[k] = v
+	}
+	for k, v := range s.moved {
+		n.moved[k] = v
+	}
+	for k, v := range s.freshP {
+		n.freshP[k] = v
+	}
+	return n
+}
+
+func (s *ownState) writable(v *types.Var) bool {
+	c, ok := s.cls[v]
+	return s.shallow[v] || (ok && !c.isBorrowed()) || !ok
+}
+
+func (s *ownState) join(o *ownState) {
+	if o.bottom {
+		return
+	}
+	if s.bottom {
+		c := o.clone()
+		s.cls, s.shallow, s.moved, s.freshP, s.bottom = c.cls, c.shallow, c.moved, c.freshP, false
+		return
+	}
+	// top-level writability survives a join only if it holds on both sides
+	sh := map[*types.Var]bool{}
+	for k := range s.cls {
+		if _, ok := o.cls[k]; ok && s.writable(k) && o.writable(k) {
+			sh[k] = true
+		}
+	}
+	for k, v := range o.cls {
+		if cur, ok := s.cls[k]; ok {
+			s.cls[k] = joinCls(cur, v)
+		} else {
+			s.cls[k] = v
+			if o.shallow[k] {
+				sh[k] = true
+			}
+		}
+	}
+	s.shallow = sh
+	for k, v := range o.moved {
+		if _, ok := s.moved[k]; !ok {
+			s.moved[k] = v
+		}
+	}
+	for k := range s.freshP {
+		if !o.freshP[k] {
+			delete(s.freshP, k)
+		}
+	}
+}
+
+type ownAnalyzer struct {
+	w       *World
+	fi      *FuncInfo
+	info    *types.Info
+	obs     map[string]*OwnOb
+	order   []string
+	cFields map[string]bool // "Document.Data[patch]" declared consumed
+	mods    map[string]bool // declared modifies (field keys), nil if no modifies clause
+	modBase map[string]string // field key -> base parameter name given as T.f[base] ("" = any object)
+	writes  map[string]string // field key -> first position written (on a non-fresh object), incl. callees
+	writeBases map[string]map[int]bool // field key -> which object: -1 receiver, i parameter i, -2 anything else
+	retCls  ocls
+	lits    map[*types.Var]*ast.FuncLit
+	depth   int
+	retAcc  *ownState // states at return statements of the literal being analysed (they reach the next iteration)
+	contAcc *ownState // states at continue statements of the innermost loop
+}
+
+func isTreeType(t types.Type) bool {
+	return t != nil && (isAny(t) || isTreeMap(t) || isTreeList(t))
+}
+
+func paramMode(c *FuncContract, name string) string {
+	if c == nil {
+		return ""
+	}
+	switch {
+	case contains(c.Consumes, name):
+		return "consumes"
+	case contains(c.Mutates, name):
+		return "mutates"
+	case contains(c.Inplace, name):
+		return "inplace"
+	}
+	return ""
+}
+
+func (a *ownAnalyzer) pos(p token.Pos) string {
+	pp := a.w.Fset.Position(p)
+	return fmt.Sprintf("%s:%d", strings.TrimPrefix(pp.Filename, a.w.RepoDir+"/"), pp.Line)
+}
+
+func (a *ownAnalyzer) ob(kind, site string, ok bool, p token.Pos, why string) {
+	key := a.fi.Key + "." + kind + "[" + site + "]"
+	if o, exists := a.obs[key]; exists {
+		if !ok && o.OK {
+			o.OK, o.Why, o.Pos = false, why, a.pos(p)
+		}
+		return
+	}
+	a.obs[key] = &OwnOb{Key: key, Kind: kind, OK: ok, Pos: a.pos(p), Why: why}
+	a.order = append(a.order, key)
+}
+
+// ownFunc analyses one function.
+func ownFunc(w *World, fi *FuncInfo) []*OwnOb {
+	a := &ownAnalyzer{w: w, fi: fi, info: fi.Pkg.TypesInfo, obs: map[string]*OwnOb{}, cFields: map[string]bool{}, writes: map[string]string{},
+		lits: map[*types.Var]*ast.FuncLit{}, writeBases: map[string]map[int]bool{}}
+	c := fi.Contract
+	if c != nil {
+		for _, x := range c.Consumes {
+			if strings.Contains(x, ".") {
+				a.cFields[x] = true
+			}
+		}
+		if len(c.Modifies) > 0 {
+			a.mods = map[string]bool{}
+			a.modBase = map[string]string{}
+			for _, m := range c.Modifies {
+				if m == "nothing" {
+					continue
+				}
+				key := m
+				if i := strings.Index(m, "["); i >= 0 {
+					key = m[:i]
+					a.modBase[key] = strings.TrimSuffix(m[i+1:], "]")
+				}
+				a.mods[key] = true
+			}
+		}
+	}
+	st := &ownState{cls: map[*types.Var]ocls{}, shallow: map[*types.Var]bool{}, moved: map[string]token.Pos{}, freshP: map[*types.Var]bool{}}
+	sig := fi.Obj.Type().(*types.Signature)
+	for i := 0; i < sig.Params().Len(); i++ {
+		p := sig.Params().At(i)
+		if !isTreeType(p.Type()) {
+			continue
+		}
+		if paramMode(c, p.Name()) != "" {
+			st.cls[p] = ocls{dparams: 1 << uint(i)}
+		} else {
+			st.cls[p] = ocls{bparams: 1 << uint(i)}
+		}
+	}
+	a.block(fi.Decl.Body.List, st)
+	// frame: every field written on a non-fresh object (here or in a callee) must be within the declared modifies
+	if a.mods != nil {
+		var ks []string
+		for k := range a.writes {
+			ks = append(ks, k)
+		}
+		sort.Strings(ks)
+		for _, k := range ks {
+			a.obs[fi.Key+".frame["+k+"]"] = &OwnOb{Key: fi.Key + ".frame[" + k + "]", Kind: "frame", OK: a.mods[k], Pos: a.writes[k],
+				Why: "writes " + k + " (directly or through a callee) but the contract's modifies clause does not list it"}
+			a.order = append(a.order, fi.Key+".frame["+k+"]")
+		}
+		if len(ks) == 0 {
+			k := fi.Key + ".frame[nothing-written]"
+			a.obs[k] = &OwnOb{Key: k, Kind: "frame", OK: true, Pos: a.pos(fi.Decl.Pos()), Why: "no struct field of a non-fresh object is written, here or in any callee"}
+			a.order = append(a.order, k)
+		}
+	}
+	var out []*OwnOb
+	seen := map[string]bool{}
+	for _, k := range a.order {
+		if !seen[k] {
+			seen[k] = true
+			out = append(out, a.obs[k])
+		}
+	}
+	return out
+}
+
+func (a *ownAnalyzer) block(stmts []ast.Stmt, st *ownState) {
+	for _, s := range stmts {
+		a.stmt(s, st)
+	}
+}
+
+func (a *ownAnalyzer) varOf(x ast.Expr) *types.Var {
+	for {
+		if p, ok := x.(*ast.ParenExpr); ok {
+			x = p.X
+			continue
+		}
+		break
+	}
+	id, ok := x.(*ast.Ident)
+	if !ok {
+		return nil
+	}
+	v, _ := a.info.ObjectOf(id).(*types.Var)
+	return v
+}
+
+func (a *ownAnalyzer) stmt(s ast.Stmt, st *ownState) {
+	switch s := s.(type) {
+	case *ast.BlockStmt:
+		a.block(s.List, st)
+	case *ast.ExprStmt:
+		a.expr(s.X, st)
+	case *ast.AssignStmt:
+		a.assign(s, st)
+	case *ast.DeclStmt:
+		if gd, ok := s.Decl.(*ast.GenDecl); ok {
+			for _, sp := range gd.Specs {
+				if vs, ok := sp.(*ast.ValueSpec); ok {
+					for i, n := range vs.Names {
+						v, _ := a.info.Defs[n].(*types.Var)
+						if v == nil {
+							continue
+						}
+						if i < len(vs.Values) {
+							st.cls[v] = a.expr(vs.Values[i], st)
+						} else {
+							st.cls[v] = owned
+						}
+					}
+				}
+			}
+		}
+	case *ast.IncDecStmt:
+	case *ast.ReturnStmt:
+		for _, r := range s.Results {
+			c := a.expr(r, st)
+			if a.retAcc == nil && isTreeType(a.info.TypeOf(r)) {
+				a.retCls = joinCls(a.retCls, c)
+			}
+			if a.retAcc == nil {
+				if call, ok := r.(*ast.CallExpr); ok && len(s.Results) == 1 {
+					cs, _, _ := a.callQuiet(call, st)
+					for _, cc := range cs {
+						a.retCls = joinCls(a.retCls, cc)
+					}
+				}
+			}
+		}
+		if a.retAcc != nil {
+			a.retAcc.join(st.clone())
+		}
+	case *ast.IfStmt:
+		if s.Init != nil {
+			a.stmt(s.Init, st)
+		}
+		a.expr(s.Cond, st)
+		t := st.clone()
+		a.block(s.Body.List, t)
+		if s.Else != nil {
+			a.stmt(s.Else, st)
+		}
+		if !endsInReturn(s.Body.List) {
+			st.join(t)
+		}
+	case *ast.SwitchStmt:
+		if s.Init != nil {
+			a.stmt(s.Init, st)
+		}
+		if s.Tag != nil {
+			a.expr(s.Tag, st)
+		}
+		base := st.clone()
+		for _, cc := range s.Body.List {
+			cl := cc.(*ast.CaseClause)
+			b := base.clone()
+			for _, x := range cl.List {
+				a.expr(x, b)
+			}
+			a.block(cl.Body, b)
+			if !endsInReturn(cl.Body) {
+				st.join(b)
+			}
+		}
+	case *ast.TypeSwitchStmt:
+		if s.Init != nil {
+			a.stmt(s.Init, st)
+		}
+		var x ast.Expr
+		switch as := s.Assign.(type) {
+		case *ast.AssignStmt:
+			x = as.Rhs[0].(*ast.TypeAssertExpr).X
+		case *ast.ExprStmt:
+			x = as.X.(*ast.TypeAssertExpr).X
+		}
+		c := a.expr(x, st)
+		src := a.varOf(x)
+		base := st.clone()
+		for _, cc := range s.Body.List {
+			cl := cc.(*ast.CaseClause)
+			b := base.clone()
+			if bv, ok := a.info.Implicits[cl].(*types.Var); ok {
+				b.cls[bv] = c
+				if src != nil && b.shallow[src] {
+					b.shallow[bv] = true
+				}
+			}
+			a.block(cl.Body, b)
+			if !endsInReturn(cl.Body) {
+				st.join(b)
+			}
+		}
+	case *ast.ForStmt:
+		if s.Init != nil {
+			a.stmt(s.Init, st)
+		}
+		for i := 0; i < 2; i++ {
+			if s.Cond != nil {
+				a.expr(s.Cond, st)
+			}
+			b := st.clone()
+			saveC := a.contAcc
+			a.contAcc = newOwnState()
+			a.block(s.Body.List, b)
+			b.join(a.contAcc)
+			a.contAcc = saveC
+			if s.Post != nil {
+				a.stmt(s.Post, b)
+			}
+			st.join(b)
+		}
+	case *ast.RangeStmt:
+		c := a.expr(s.X, st)
+		for i := 0; i < 2; i++ {
+			b := st.clone()
+			for _, lv := range []ast.Expr{s.Key, s.Value} {
+				if lv == nil {
+					continue
+				}
+				if v := a.varOf(lv); v != nil {
+					if isTreeType(v.Type()) {
+						b.cls[v] = c
+					}
+					for k := range b.moved { // the loop variable is bound afresh in every iteration
+						if strings.HasPrefix(k, "var:"+v.Name()+"@") && strings.HasSuffix(k, fmt.Sprintf("#%p", v)) {
+							delete(b.moved, k)
+						}
+					}
+				}
+			}
+			if kx, ok := s.Key.(*ast.Ident); ok && s.Value == nil {
+				_ = kx
+			}
+			saveC := a.contAcc
+			a.contAcc = newOwnState()
+			a.block(s.Body.List, b)
+			b.join(a.contAcc)
+			a.contAcc = saveC
+			st.join(b)
+		}
+	case *ast.LabeledStmt:
+		a.stmt(s.Stmt, st)
+	case *ast.DeferStmt:
+		a.expr(s.Call, st)
+	case *ast.BranchStmt:
+		if a.contAcc != nil {
+			a.contAcc.join(st.clone())
+		}
+	case *ast.EmptyStmt:
+	}
+}
+
+func endsInReturn(stmts []ast.Stmt) bool {
+	if len(stmts) == 0 {
+		return false
+	}
+	switch l := stmts[len(stmts)-1].(type) {
+	case *ast.ReturnStmt:
+		return true
+	case *ast.ExprStmt:
+		if c, ok := l.X.(*ast.CallExpr); ok {
+			if id, ok := c.Fun.(*ast.Ident); ok && (id.Name == "fatal" || id.Name == "panic") {
+				return true
+			}
+		}
+	}
+	return false
+}
+
+func (a *ownAnalyzer) assign(s *ast.AssignStmt, st *ownState) {
+	var rcls []ocls
+	var rshallow []bool
+	var rfreshP []bool
+	if len(s.Rhs) == 1 && len(s.Lhs) > 1 {
+		cs, sh, fp := a.exprMulti(s.Rhs[0], st, len(s.Lhs))
+		rcls, rshallow, rfreshP = cs, sh, fp
+	} else {
+		for _, r := range s.Rhs {
+			c := a.expr(r, st)
+			rcls = append(rcls, c)
+			rshallow = append(rshallow, a.isShallowFresh(r, st))
+			rfreshP = append(rfreshP, a.isFreshPtr(r, st))
+		}
+	}
+	for i, l := range s.Lhs {
+		var c ocls = owned
+		if i < len(rcls) {
+			c = rcls[i]
+		}
+		switch lx := l.(type) {
+		case *ast.Ident:
+			v := a.varOf(lx)
+			if v == nil {
+				continue
+			}
+			st.cls[v] = c
+			st.shallow[v] = i < len(rshallow) && rshallow[i]
+			if i < len(rfreshP) && rfreshP[i] {
+				st.freshP[v] = true
+			} else {
+				delete(st.freshP, v)
+			}
+			// a reassigned variable is live again
+			for k := range st.moved {
+				if strings.HasPrefix(k, "var:"+v.Name()+"@") {
+					delete(st.moved, k)
+				}
+			}
+		case *ast.IndexExpr:
+			a.expr(lx.Index, st)
+			bv := a.varOf(lx.X)
+			t := a.info.TypeOf(lx.X)
+			if isTreeMap(t) || isTreeList(t) {
+				bc := a.expr(lx.X, st)
+				okW := !bc.isBorrowed() || (bv != nil && st.writable(bv))
+				a.ob("own-write-site", exprString(lx.X)+"[…]", okW, lx.Pos(),
+					"in-place write to "+exprString(lx.X)+", which may be reachable by the caller or from stored documents (declare the parameter consumes/inplace/mutates, or write to a copy)")
+				// storing a borrowed value into an owned container makes the container share borrowed data: embedding
+				if !bc.isBorrowed() && c.isBorrowed() && bv != nil && i < len(s.Rhs) && isTreeType(a.info.TypeOf(s.Rhs[i])) {
+					st.cls[bv] = joinCls(bc, c)
+					st.shallow[bv] = true
+				} else if bv != nil && i < len(s.Rhs) && isTreeType(a.info.TypeOf(s.Rhs[i])) {
+					st.cls[bv] = joinCls(bc, c)
+				}
+			}
+		case *ast.SelectorExpr:
+			a.fieldWrite(lx, st)
+
+		}
+	}
+}
+
+// fieldWrite records a write to x.f; writes to objects allocated in this function do not count for the frame.
+func (a *ownAnalyzer) fieldWrite(lx *ast.SelectorExpr, st *ownState) {
+	sel, ok := a.info.Selections[lx]
+	if !ok || sel.Kind() != types.FieldVal {
+		return
+	}
+	rt := a.info.TypeOf(lx.X)
+	if _, isPtr := rt.Underlying().(*types.Pointer); !isPtr {
+		return
+	}
+	base := -2
+	if bv := a.varOf(lx.X); bv != nil {
+		if st.freshP[bv] {
+			return
+		}
+		base = a.paramIndexOf(bv)
+	}
+	a.recordWrite(fieldKey(rt, lx.Sel.Name), base, a.pos(lx.Pos()))
+}
+
+func (a *ownAnalyzer) isShallowFresh(x ast.Expr, st *ownState) bool {
+	switch y := x.(type) {
+	case *ast.CompositeLit:
+		return true
+	case *ast.CallExpr:
+		name := a.extCallName(y)
+		switch name {
+		case "maps.Clone", "slices.Clone", "golang.org/x/exp/slices.Clone", "golang.org/x/exp/maps.Clone", "make":
+			return true
+		}
+		if callee := a.w.calleeOfCall(y, a.info); callee != nil && callee.Contract != nil && callee.Contract.Fresh {
+			return true
+		}
+	}
+	return false
+}
+
+func (a *ownAnalyzer) isFreshPtr(x ast.Expr, st *ownState) bool {
+	switch y := x.(type) {
+	case *ast.UnaryExpr:
+		if y.Op == token.AND {
+			_, ok := y.X.(*ast.CompositeLit)
+			return ok
+		}
+	case *ast.CallExpr:
+		if callee := a.w.calleeOfCall(y, a.info); callee != nil {
+			return a.w.returnsFreshObject(callee)
+		}
+	case *ast.Ident:
+		if v := a.varOf(y); v != nil {
+			return st.freshP[v]
+		}
+	}
+	return false
+}
+
+func (a *ownAnalyzer) extCallName(c *ast.CallExpr) string {
+	switch f := c.Fun.(type) {
+	case *ast.Ident:
+		if _, ok := a.info.Uses[f].(*types.Builtin); ok {
+			return f.Name
+		}
+	case *ast.SelectorExpr:
+		if fn, ok := a.info.Uses[f.Sel].(*types.Func); ok && fn.Pkg() != nil {
+			if fn.Type().(*types.Signature).Recv() == nil {
+				return fn.Pkg().Path() + "." + fn.Name()
+			}
+		}
+	}
+	return ""
+}
+
+// expr returns the ownership class of a (tree-typed) expression and checks the uses inside it.
+func (a *ownAnalyzer) expr(x ast.Expr, st *ownState) ocls {
+	if x == nil {
+		return owned
+	}
+	switch y := x.(type) {
+	case *ast.ParenExpr:
+		return a.expr(y.X, st)
+	case *ast.Ident:
+		v := a.varOf(y)
+		if v == nil {
+			return owned
+		}
+		if isTreeType(v.Type()) {
+			for k, p := range st.moved {
+				if strings.HasPrefix(k, "var:"+v.Name()+"@") && strings.HasSuffix(k, fmt.Sprintf("#%p", v)) {
+					a.ob("own-moved-once", v.Name(), false, y.Pos(), fmt.Sprintf("%s is used after it was handed to a consuming call at %s (its content may have been mutated or embedded elsewhere; on a loop or closure back-edge the same value is handed over once per iteration)", v.Name(), a.pos(p)))
+				}
+			}
+		}
+		if c, ok := st.cls[v]; ok {
+			return c
+		}
+		if !isTreeType(v.Type()) {
+			return owned
+		}
+		if v.Parent() == v.Pkg().Scope() {
+			return borrowed
+		}
+		return owned
+	case *ast.BasicLit, *ast.FuncLit:
+		return owned
+	case *ast.CompositeLit:
+		c := owned
+		for _, el := range y.Elts {
+			if kv, ok := el.(*ast.KeyValueExpr); ok {
+				a.expr(kv.Key, st)
+				if isTreeType(a.info.TypeOf(kv.Value)) {
+					c = joinCls(c, a.expr(kv.Value, st))
+				} else {
+					a.expr(kv.Value, st)
+				}
+			} else if isTreeType(a.info.TypeOf(el)) {
+				c = joinCls(c, a.expr(el, st))
+			} else {
+				a.expr(el, st)
+			}
+		}
+		return c
+	case *ast.UnaryExpr:
+		return a.expr(y.X, st)
+	case *ast.BinaryExpr:
+		a.expr(y.X, st)
+		a.expr(y.Y, st)
+		return owned
+	case *ast.IndexExpr:
+		a.expr(y.Index, st)
+		c := a.expr(y.X, st)
+		if v := a.varOf(y.X); v != nil && st.shallow[v] {
+			_ = v
+		}
+		return c
+	case *ast.SliceExpr:
+		return a.expr(y.X, st)
+	case *ast.TypeAssertExpr:
+		return a.expr(y.X, st)
+	case *ast.StarExpr:
+		a.expr(y.X, st)
+		return borrowed
+	case *ast.SelectorExpr:
+		if sel, ok := a.info.Selections[y]; ok && sel.Kind() == types.FieldVal {
+			a.expr(y.X, st)
+			if !isTreeType(a.info.TypeOf(y)) {
+				return owned
+			}
+			rt := a.info.TypeOf(y.X)
+			if bv := a.varOf(y.X); bv != nil {
+				if st.freshP[bv] {
+					return owned
+				}
+				key := fieldKey(rt, y.Sel.Name) + "[" + bv.Name() + "]"
+				if p, moved := st.moved["field:"+key]; moved {
+					a.ob("own-moved-once", key, false, y.Pos(), fmt.Sprintf("%s is used after it was handed to a consuming call at %s (the same tree is then shared by several owners)", key, a.pos(p)))
+				}
+				if a.cFields[key] {
+					return owned
+				}
+			}
+			return borrowed
+		}
+		return owned
+	case *ast.CallExpr:
+		cs, _, _ := a.call(y, st, 1)
+		if len(cs) > 0 {
+			return cs[0]
+		}
+		return owned
+	case *ast.KeyValueExpr:
+		a.expr(y.Key, st)
+		return a.expr(y.Value, st)
+	}
+	return owned
+}
+
+func (a *ownAnalyzer) exprMulti(x ast.Expr, st *ownState, n int) ([]ocls, []bool, []bool) {
+	switch y := x.(type) {
+	case *ast.CallExpr:
+		return a.call(y, st, n)
+	case *ast.IndexExpr:
+		c := a.expr(y, st)
+		return []ocls{c, owned}, []bool{false, false}, []bool{false, false}
+	case *ast.TypeAssertExpr:
+		c := a.expr(y.X, st)
+		sh := false
+		if v := a.varOf(y.X); v != nil && st.shallow[v] {
+			sh = true
+		}
+		return []ocls{c, owned}, []bool{sh, false}, []bool{false, false}
+	}
+	c := a.expr(x, st)
+	out := make([]ocls, n)
+	for i := range out {
+		out[i] = c
+	}
+	return out, make([]bool, n), make([]bool, n)
+}
+
+// consume marks the argument of a consuming parameter as handed over and checks it may be.
+func (a *ownAnalyzer) consume(arg ast.Expr, st *ownState, callee string, c ocls, call *ast.CallExpr) {
+	site := callee + " <- " + exprString(arg)
+	if fsel, ok := arg.(*ast.SelectorExpr); ok && a.mods != nil {
+		if sel, ok := a.info.Selections[fsel]; ok && sel.Kind() == types.FieldVal {
+			fk := fieldKey(a.info.TypeOf(fsel.X), fsel.Sel.Name)
+			bn := ""
+			if bv := a.varOf(fsel.X); bv != nil {
+				bn = bv.Name()
+			}
+			if a.mods[fk] && (a.modBase[fk] == "" || a.modBase[fk] == bn) {
+				// in-place update of a field this function is allowed to modify (x.f = g(x.f))
+				c = owned
+				a.fieldWrite(fsel, st)
+			}
+		}
+	}
+	a.ob("own-not-borrowed", site, !c.isBorrowed(), arg.Pos(),
+		exprString(arg)+" may be reachable by the caller or from stored documents, but "+callee+" may mutate or embed it (pass a deepClone, or declare the source consumed)")
+	switch y := arg.(type) {
+	case *ast.Ident:
+		if v := a.varOf(y); v != nil && isTreeType(v.Type()) {
+			st.moved[fmt.Sprintf("var:%s@%d#%p", v.Name(), call.Pos(), v)] = call.Pos()
+		}
+	case *ast.SelectorExpr:
+		if sel, ok := a.info.Selections[y]; ok && sel.Kind() == types.FieldVal {
+			if bv := a.varOf(y.X); bv != nil {
+				key := fieldKey(a.info.TypeOf(y.X), y.Sel.Name) + "[" + bv.Name() + "]"
+				if a.cFields[key] {
+					st.moved["field:"+key] = call.Pos()
+				}
+			}
+		}
+	}
+}
+
+// call analyses a call: argument uses, consuming positions, heap writes of the callee, and the class of its results.
+func (a *ownAnalyzer) call(y *ast.CallExpr, st *ownState, n int) ([]ocls, []bool, []bool) {
+	mk := func(c ocls, sh, fp bool) ([]ocls, []bool, []bool) {
+		cs, shs, fps := make([]ocls, n), make([]bool, n), make([]bool, n)
+		for i := range cs {
+			cs[i], shs[i], fps[i] = c, sh, fp
+		}
+		return cs, shs, fps
+	}
+	if tv, ok := a.info.Types[y.Fun]; ok && tv.IsType() {
+		return mk(a.expr(y.Args[0], st), false, false)
+	}
+	// call of a function-typed variable bound to a literal (inside an inlined iteration helper)
+	if id, ok := y.Fun.(*ast.Ident); ok {
+		if b, ok := a.info.Uses[id].(*types.Builtin); ok {
+			switch b.Name() {
+			case "append":
+				c := owned
+				for _, ar := range y.Args {
+					if isTreeType(a.info.TypeOf(ar)) || isTreeList(a.info.TypeOf(ar)) {
+						c = joinCls(c, a.expr(ar, st))
+					} else {
+						a.expr(ar, st)
+					}
+				}
+				return mk(c, true, false)
+			case "delete":
+				bc := a.expr(y.Args[0], st)
+				a.expr(y.Args[1], st)
+				bv := a.varOf(y.Args[0])
+				if isTreeMap(a.info.TypeOf(y.Args[0])) {
+					okW := !bc.isBorrowed() || (bv != nil && st.writable(bv))
+					a.ob("own-write-site", "delete("+exprString(y.Args[0])+", …)", okW, y.Pos(),
+						"in-place delete from "+exprString(y.Args[0])+", which may be reachable by the caller or from stored documents")
+				}
+				return mk(owned, false, false)
+			default:
+				for _, ar := range y.Args {
+					a.expr(ar, st)
+				}
+				return mk(owned, true, false)
+			}
+		}
+	}
+	callee := a.w.calleeOfCall(y, a.info)
+	if callee == nil {
+		// external: arguments are read; results are fresh (decoders, clones) except the shallow clones
+		c := owned
+		name := a.extCallName(y)
+		for _, ar := range y.Args {
+			if lit, ok := ar.(*ast.FuncLit); ok {
+				a.literalBody(lit, st, owned)
+				continue
+			}
+			ac := a.expr(ar, st)
+			switch name {
+			case "maps.Clone", "slices.Clone", "golang.org/x/exp/slices.Clone", "golang.org/x/exp/maps.Clone":
+				c = joinCls(c, ac)
+			}
+		}
+		if sel, ok := y.Fun.(*ast.SelectorExpr); ok {
+			a.expr(sel.X, st)
+		}
+		return mk(c, true, false)
+	}
+	sig := callee.Obj.Type().(*types.Signature)
+	cc := callee.Contract
+	if sel, ok := y.Fun.(*ast.SelectorExpr); ok && sig.Recv() != nil {
+		a.expr(sel.X, st)
+	}
+	// iteration helpers taking a literal: the literal's body runs once per element
+	if inlinable(callee) {
+		res := owned
+		collCls := owned
+		for i, ar := range y.Args {
+			if lit, ok := ar.(*ast.FuncLit); ok {
+				res = joinCls(res, a.literalBody(lit, st, collCls))
+				continue
+			}
+			c := a.expr(ar, st)
+			if i == 0 {
+				collCls = c
+			}
+		}
+		return mk(res, true, false)
+	}
+	var argCls []ocls
+	for i, ar := range y.Args {
+		c := a.expr(ar, st)
+		argCls = append(argCls, c)
+		if i >= sig.Params().Len() {
+			continue
+		}
+		p := sig.Params().At(i)
+		if !isTreeType(p.Type()) {
+			continue
+		}
+		mode := paramMode(cc, p.Name())
+		if mode == "" && cc == nil && a.w.mutParams[callee][i] {
+			mode = "consumes" // uncontracted callee that writes the parameter in place
+		}
+		switch mode {
+		case "consumes":
+			a.consume(ar, st, callee.Name, c, y)
+		case "inplace":
+			// evaluated in place: allowed on borrowed data by design (process1); counts as a heap modification
+			if fsel, ok := ar.(*ast.SelectorExpr); ok {
+				a.fieldWrite(fsel, st)
+			}
+		case "mutates":
+			bv := a.varOf(ar)
+			okW := !c.isBorrowed() || (bv != nil && st.writable(bv))
+			a.ob("own-write-site", callee.Name+" mutates "+exprString(ar), okW, ar.Pos(), exprString(ar)+" is filled in place by "+callee.Name+" but may be reachable by the caller")
+		}
+	}
+	// heap writes of the callee count for this function's frame, unless they hit an object allocated here
+	for k, base := range a.w.ownWrites(callee) {
+		for b := range base {
+			skip := false
+			var argx ast.Expr
+			switch {
+			case b == -1:
+				if sel, ok := y.Fun.(*ast.SelectorExpr); ok {
+					argx = sel.X
+				}
+			case b >= 0 && b < len(y.Args):
+				argx = y.Args[b]
+			}
+			nb := -2
+			if argx != nil {
+				if bv := a.varOf(argx); bv != nil {
+					if st.freshP[bv] {
+						skip = true
+					} else {
+						nb = a.paramIndexOf(bv)
+					}
+				} else if a.isFreshPtr(argx, st) {
+					skip = true
+				}
+			}
+			if skip {
+				continue
+			}
+			a.recordWrite(k, nb, a.pos(y.Pos())+" (via "+callee.Name+")")
+		}
+	}
+	// consumed fields declared by the callee: (consumes Document.Data[patch]) -> the caller's argument for `patch`
+	if cc != nil {
+		for _, cf := range cc.Consumes {
+			i := strings.Index(cf, "[")
+			if i < 0 || !strings.HasSuffix(cf, "]") {
+				continue
+			}
+			fkey, pname := cf[:i], cf[i+1:len(cf)-1]
+			for pi := 0; pi < sig.Params().Len(); pi++ {
+				if sig.Params().At(pi).Name() == pname && pi < len(y.Args) {
+					if bv := a.varOf(y.Args[pi]); bv != nil {
+						key := fkey + "[" + bv.Name() + "]"
+						fresh := st.freshP[bv]
+						if p, moved := st.moved["field:"+key]; moved {
+							a.ob("own-moved-once", callee.Name+" <- "+key, false, y.Pos(), fmt.Sprintf("%s is handed to %s although it was already handed over at %s: the same tree then has several owners (one per loop iteration / target)", key, callee.Name, a.pos(p)))
+						} else {
+							a.ob("own-moved-once", callee.Name+" <- "+key, true, y.Pos(), "")
+						}
+						if !fresh && !a.cFields[key] {
+							a.ob("own-not-borrowed", callee.Name+" <- "+key, false, y.Pos(), key+" is consumed by "+callee.Name+" but this function does not own it (declare `consumes "+key+"`, or pass a copy)")
+						}
+						st.moved["field:"+key] = y.Pos()
+					}
+				}
+			}
+		}
+	}
+	fp := a.w.returnsFreshObject(callee)
+	if cc != nil && cc.Fresh {
+		return mk(owned, true, fp)
+	}
+	if cc != nil && cc.Borrowed {
+		return mk(borrowed, false, false)
+	}
+	// result class from the callee's summary: the sources its returned trees derive from, mapped to this call's arguments
+	sum := a.w.retSummary(callee)
+	res := ocls{heap: sum.heap}
+	for i := 0; i < len(argCls) && i < 64; i++ {
+		if (sum.bparams|sum.dparams)&(1<<uint(i)) != 0 {
+			res = joinCls(res, argCls[i])
+		}
+	}
+	return mk(res, !res.isBorrowed(), fp)
+}
+
+func (a *ownAnalyzer) paramIndexOf(v *types.Var) int {
+	sig := a.fi.Obj.Type().(*types.Signature)
+	if sig.Recv() == v {
+		return -1
+	}
+	for i := 0; i < sig.Params().Len(); i++ {
+		if sig.Params().At(i) == v {
+			return i
+		}
+	}
+	return -2
+}
+
+func (a *ownAnalyzer) recordWrite(key string, base int, pos string) {
+	if a.writeBases[key] == nil {
+		a.writeBases[key] = map[int]bool{}
+	}
+	a.writeBases[key][base] = true
+	if _, ok := a.writes[key]; !ok {
+		a.writes[key] = pos
+	}
+}
+
+// callQuiet classifies a call's results without recording obligations.
+func (a *ownAnalyzer) callQuiet(y *ast.CallExpr, st *ownState) ([]ocls, []bool, []bool) {
+	saveObs, saveOrder, saveW, saveWB := a.obs, a.order, a.writes, a.writeBases
+	a.obs, a.order, a.writes, a.writeBases = map[string]*OwnOb{}, nil, map[string]string{}, map[string]map[int]bool{}
+	n := 1
+	if t, ok := a.info.TypeOf(y).(*types.Tuple); ok {
+		n = t.Len()
+	}
+	cs, sh, fp := a.call(y, st.clone(), n)
+	// only tree-typed results matter
+	var out []ocls
+	if t, ok := a.info.TypeOf(y).(*types.Tuple); ok {
+		for i := 0; i < t.Len() && i < len(cs); i++ {
+			if isTreeType(t.At(i).Type()) {
+				out = append(out, cs[i])
+			}
+		}
+	} else if isTreeType(a.info.TypeOf(y)) {
+		out = cs
+	}
+	a.obs, a.order, a.writes, a.writeBases = saveObs, saveOrder, saveW, saveWB
+	return out, sh, fp
+}
+
+// literalBody analyses a function literal handed to an iteration helper: its body runs once per element, so it is
+// analysed twice (a value defined outside and consumed inside is consumed once per element).
+func (a *ownAnalyzer) literalBody(lit *ast.FuncLit, st *ownState, elem ocls) ocls {
+	res := owned
+	for i := 0; i < 2; i++ {
+		b := st.clone()
+		for _, f := range lit.Type.Params.List {
+			for _, nm := range f.Names {
+				if pv, ok := a.info.Defs[nm].(*types.Var); ok {
+					if isTreeType(pv.Type()) {
+						b.cls[pv] = elem
+					}
+					for k := range b.moved {
+						if strings.HasPrefix(k, "var:"+pv.Name()+"@") && strings.HasSuffix(k, fmt.Sprintf("#%p", pv)) {
+							delete(b.moved, k)
+						}
+					}
+				}
+			}
+		}
+		saveR, saveC := a.retAcc, a.contAcc
+		a.retAcc, a.contAcc = newOwnState(), nil
+		a.block(lit.Body.List, b)
+		b.join(a.retAcc)
+		a.retAcc, a.contAcc = saveR, saveC
+		ast.Inspect(lit.Body, func(n ast.Node) bool {
+			if _, ok := n.(*ast.FuncLit); ok && n != lit {
+				return false
+			}
+			if r, ok := n.(*ast.ReturnStmt); ok {
+				for _, rx := range r.Results {
+					if isTreeType(a.info.TypeOf(rx)) {
+						res = joinCls(res, a.exprQuiet(rx, b))
+					}
+				}
+			}
+			return true
+		})
+		st.join(b)
+	}
+	return res
+}
+
+// exprQuiet classifies without recording obligations (used to classify return expressions a second time).
+func (a *ownAnalyzer) exprQuiet(x ast.Expr, st *ownState) ocls {
+	saveObs, saveOrder := a.obs, a.order
+	a.obs, a.order = map[string]*OwnOb{}, nil
+	c := a.expr(x, st.clone())
+	a.obs, a.order = saveObs, saveOrder
+	return c
+}
+
+// ownPass runs the ownership/frame analysis on the functions of the property's cone.
+func ownPass(w *World, id string) []*OwnOb {
+	var out []*OwnOb
+	var fis []*FuncInfo
+	if id == "C08" {
+		return nil
+	}
+	fis = cone(w, id)
+	for _, fi := range fis {
+		out = append(out, ownFunc(w, fi)...)
+	}
+	return out
+}
